@@ -11,54 +11,65 @@ TECH = "Rocq theorem over an executable model + differential correspondence with
 # id -> (level text, level note)   ; absent => not_applicable with REASON
 CLAIMED = {
  "C01": (
-  "Coq theorems (coq/Properties/C01.v, axiom-free) over an executable pointer machine that mirrors add_bytes / remove_bytes / every "
+  "Coq theorems (coq/Properties/C01.v, 15 pinned, axiom-free) over an executable pointer machine that mirrors add_bytes / remove_bytes / every "
   "resize_notification / every container operation line by line (memory as the whole allocation, pointer trees mirroring every Rust "
-  "Ptr type incl. UnsizedList's inner_exclusive / possible_mut_borrow / range). PROVED: full refinement to the owned model for FLAT "
-  "shapes (generated structs of fixed values, lists of any element type / prefix width and a trailing RemainingBytes): "
-  "for every history of insert_all / remove_range interleaved between sibling fields, of any length and sizes, each operation succeeds "
-  "exactly when Vec's does (index, range, length prefix, growth allowance) and every observation - live accessors, raw bytes, fresh "
-  "parse - equals the model (C01_flat_run_refines, _observable, _reborrow, error theorems); for ALL shapes the shift lemma of the "
-  "notification broadcast (C01_notify_shift, covers the repaired D7 branch). Lists / maps of unsized elements, Map / Set / String, "
-  "whole-value replacement and initializers are tied by correspondence: 1.5k (quick) / 40k (thorough) generated histories on 19 "
-  "Rust shapes nested to depth 3 run through the real ExclusiveWrapper API and the extracted machine (0 disagreements), and judged "
-  "against an independent plain-Vec/BTreeMap oracle in Python.",
-  "PARTIAL (stated in Properties/C01.v): the general induction over shapes with lists of unsized elements is not proved; the proved "
-  "theorems carry the suffix _flat. Enums are in the encode/parse universe (C04/C05) but not in the harness family for operations. "
-  "Found and fixed D7 (stale inner pointer not shifted) and D18 (empty trailing RemainingBytes at full capacity fails the pointer "
-  "check: found while proving C03_flat_pointer_assertions_hold); known finding D16 (failing initializer after the resize)."),
+  "Ptr type incl. UnsizedList's inner_exclusive / possible_mut_borrow / range). PROVED for EVERY enum-free shape - structs, lists of any "
+  "element type / prefix width, trailing RemainingBytes, lists and maps of unsized elements nested to any depth - every well-formed value, "
+  "every path and every finite history of List::insert_all / remove_range (push, insert, pop, remove, clear are instances) issued at ANY "
+  "nesting depth through get_mut / get_exclusive on each list of unsized elements on the way: each operation succeeds exactly when Vec's "
+  "does (index, range, length prefix, growth allowance), the notification broadcast fixes exactly the ancestors' unsized_size and offset "
+  "tables and shifts every later pointer (C01_general_notify_inside), and every observation - live accessors whatever the lists remember, "
+  "raw bytes, fresh parse, re-borrow - equals the owned model (C01_general_step_refines / _run_refines / _observable / _reborrow / "
+  "_descent; non-vacuity by a vm_compute'd nested history). The flat-shape theorems of the first round remain as the special case. "
+  "Operations ON a list of unsized elements itself (insert / remove / clear of elements), Map / Set / String views, whole-value "
+  "replacement and initializers are tied by correspondence: 1.5k (quick) / 40k (thorough) generated histories on 21 Rust shapes nested to "
+  "depth 3 run through the real ExclusiveWrapper API and the extracted machine (0 disagreements), judged against an independent "
+  "plain-Vec/BTreeMap oracle in Python.",
+  "PARTIAL (stated in Properties/C01.v): element-level operations of UnsizedList / UnsizedMap (insert, remove, clear of elements, with "
+  "their offset-table surgery) are in the machine and the correspondence but have no refinement theorem yet; enums are in the encode/parse "
+  "universe (C04/C05) but neither in the operations harness nor in the refinement. Found and fixed D7 (stale inner pointer not "
+  "shifted), D18 (empty trailing RemainingBytes at full capacity: found while proving the flat pointer assertions) and D26 (a STALE "
+  "recorded inner pointer took part in check_pointers and could be shifted out of the allocation: found while stating the general "
+  "layout invariant); known finding D16 (failing initializer after the resize)."),
  "C02": (
-  "Coq theorems (coq/Properties/C02.v, axiom-free): for flat shapes, after ANY history the first data_len bytes are exactly "
-  "encode(value) and data_len = byte_size(value) (invariant Rep, C02_flat_canonical_after_any_history); for ALL shapes canonical "
-  "encodings have the announced size, are injective and are read back as the same value by any reader (C02_encode_injective, "
-  "C02_any_reader_sees_the_value). Tie: after every step of 1.2k (quick) / 40k (thorough) histories the harness compares the "
-  "account bytes with from_owned(value read back) byte for byte and the reported length with byte_size, and the extracted machine "
-  "must agree on the checksum of the bytes; histories are biased to lists / maps of unsized elements where unsized_size, the offset "
-  "table and the trailing length copy live.",
-  "PARTIAL: the invariant is proved for flat shapes only; for lists of unsized elements the canonical-form claim rests on the "
-  "correspondence (machine = implementation on every generated history, bytes = from_owned(value))."),
+  "Coq theorems (coq/Properties/C02.v, axiom-free): for every enum-free shape (lists and maps of unsized elements at any depth included), "
+  "after ANY history of list operations at any nesting depth - failing operations included - the first data_len bytes are exactly "
+  "encode(value) and data_len = byte_size(value) (C02_general_canonical_after_any_history, from the refinement invariant RepF); for "
+  "ALL shapes canonical encodings have the announced size, are injective and are read back as the same value by any reader "
+  "(C02_encode_injective, C02_any_reader_sees_the_value). Tie: after every step of 1.2k (quick) / 40k (thorough) histories the harness "
+  "compares the account bytes with from_owned(value read back) byte for byte and the reported length with byte_size, and the extracted "
+  "machine must agree on the checksum of the bytes; histories are biased to lists / maps of unsized elements where unsized_size, the "
+  "offset table and the trailing length copy live.",
+  "PARTIAL: for element-level operations of lists / maps of unsized elements (insert / remove / clear of elements), enums, whole-value "
+  "replacement and initializers the canonical-form claim rests on the correspondence (machine = implementation on every generated "
+  "history, bytes = from_owned(value))."),
  "C03": (
   "Coq theorems (coq/Properties/C03.v, axiom-free). ALL shapes: no operation changes the size of the allocation - every write of "
   "add_bytes / remove_bytes / the notification broadcast (incl. the offset-table patches of lists of unsized elements) lands inside "
-  "[0, capacity) or the step has outcome Fault (C03_*_stays_in_allocation); check_pointers only accepts trees whose every address "
-  "(recorded inner pointers included) lies in the buffer's range, so an accessor swapped in from another buffer is reported at the "
-  "latest by the drop-time check (C03_swapped_accessor_detected). Flat shapes: no Fault and no pointer assertion in any history, "
-  "growth beyond the allocation is InvalidRealloc before any memmove (C03_realloc_limit), also at capacity-1 / capacity / capacity+1. "
+  "[0, capacity) or the step has outcome Fault (C03_*_stays_in_allocation); check_pointers only accepts trees whose every live address "
+  "lies in the buffer's range, so an accessor swapped in from another buffer is reported at the latest by the drop-time check "
+  "(C03_swapped_accessor_detected). Every enum-free shape, list operations at any nesting depth, failures included: the outcome of a "
+  "history is never Fault nor Panic and the pointer assertions hold in every reachable state (C03_general_no_fault_in_any_history, "
+  "C03_general_pointer_assertions_hold); growth beyond the allocation is InvalidRealloc before any memmove. "
   "Tie: histories run on an mmap'ed allocation of exactly initial+10240 bytes flush against a PROT_NONE page (before or after) with "
-  "canaries on the other side, each case in a forked child: SIGSEGV and canary damage are observations.",
+  "canaries on the other side, each case in a forked child: SIGSEGV and canary damage are observations; 40 accessor-swap scenarios on two "
+  "buffers; allowance-scale histories that shift a stale inner pointer (D26).",
   "PARTIAL (DESIGN section 7): the theorems are about the byte-level contract (which offsets are touched); that the Rust pointer "
-  "arithmetic realises those offsets is the correspondence plus guard pages. The swap scenario is proved on the model's "
-  "check_pointers; it is not yet driven on the implementation by the harness beyond the repository's own two should_panic tests."),
+  "arithmetic realises those offsets is the correspondence plus guard pages. Element-level operations of lists of unsized elements: "
+  "allocation invariance proved, absence of Fault by correspondence. Found and fixed D18 and D26."),
  "C06": (
-  "Coq theorems (coq/Properties/C06.v, axiom-free), flat shapes: every failure of a list operation - index, range, length prefix, "
-  "growth beyond the allowance, growth refused by the data access - is returned before any write; the state still represents the "
-  "same value with canonical bytes and exact length and any later history refines the owned model from it "
-  "(C06_flat_*_is_clean, C06_flat_continue_after_failure). Tie: 1.8k (quick) / 40k (thorough) histories with growth refused during "
-  "step k (k swept over every step of 19 growth-heavy histories) and a generator biased to failing operations; after a failed "
-  "operation bytes, length, live accessors and a fresh parse are observed and further operations applied; model, implementation and "
-  "the plain oracle must agree.",
+  "Coq theorems (coq/Properties/C06.v, axiom-free), every enum-free shape, list operations at any nesting depth: every failure - index, "
+  "range, length prefix, growth beyond the allowance, growth refused by the data access - is returned with the owned model's code before "
+  "any write; the state reached by the descent still represents the same value with canonical bytes and exact length; histories with "
+  "failures in them keep refining the owned model step by step (C06_general_failure_is_clean, C06_general_continue_after_failures; "
+  "flat-shape theorems as the special case). Tie: 1.8k (quick) / 40k (thorough) histories with growth refused during step k (k swept "
+  "over every step of 21 growth-heavy histories) and a generator biased to failing operations; after a failed operation bytes, length, "
+  "live accessors and a fresh parse are observed and further operations applied; model, implementation and the plain oracle must agree. "
+  "Second stage on native pinocchio accounts where AccountInfo::resize_unchecked itself refuses the growth.",
   "Known finding D16 (not repaired: not a small safe patch): an element initializer that fails (array longer than the list's "
   "length prefix allows) runs after the container was resized (UnsizedList::insert_all_with_offsets, set_data_inner): the error "
-  "leaves a modified value / non-canonical bytes. The check prints KNOWN-FINDING for that class and reports any other violation."),
+  "leaves a modified value / non-canonical bytes. The check prints KNOWN-FINDING for that class and reports any other violation. "
+  "Element-level operations of lists of unsized elements: atomicity by correspondence only."),
  "C04": (
   "Coq theorems (coq/Properties/C04.v, axiom-free) over the model of UnsizedType::get_ptr / owned_from_ptr for the whole "
   "inductive universe of shapes (fixed-size checked values, lists with any prefix width, trailing bytes, lists and maps of "
